@@ -235,6 +235,29 @@ class HistoryRunner:
 				self.changed_since_obs = True
 				self.log.append(['lose', file_class(victim)])
 			self.kinds_seq.append('lose')
+		elif kind == 'truncate':
+			# a cache file as an interrupted writer of an EARLIER process left it: only the first `off` bytes (optionally zero-filled up to
+			# the old size, the delayed-allocation picture) -- byte-granular, independent of how the writer chunks its writes
+			files = [f for f in self.proj.cache_files() if file_class(f) == op.get('cls')]
+			if op.get('m'):
+				files = [f for f in files if (module_of_cache_file(f) or ('',))[0] == op['m']]
+			if files:
+				victim = files[min(len(files) - 1, int(op.get('pick', 0.0) * len(files)))]
+				full = self.proj.sc.path(victim)
+				data = open(full, 'rb').read()
+				mode, n = op['off']
+				off = {'abs': n, 'end': len(data) - n, 'frac': int(len(data) * n / 10000)}[mode]
+				off = max(0, min(len(data) - 1, off))
+				with open(full, 'wb') as f:
+					f.write(data[:off] + (b'\0' * (len(data) - off) if op.get('zeros') else b''))
+				self.tainted.add(victim)
+				self.bump('faults_fired', 'torn-write(truncated %s file%s)' % (op.get('cls'), ', zero-filled' if op.get('zeros') else ''))
+				self.bump('truncation_offsets', '%s:%s' % (op.get('cls'), 'first-8' if off < 8 else 'last-8' if off >= len(data) - 8 else 'interior'))
+				self.changed_since_obs = True
+				self.log.append(['truncate', file_class(victim), off, len(data)])
+			else:
+				self.bump('probes', 'truncate: no such cache file')
+			self.kinds_seq.append('truncate')
 		elif kind == 'run':
 			self.do_run(i, op)
 		else:
